@@ -18,6 +18,7 @@ warnings.simplefilter('ignore')
 ID = 'C07'
 MODULE = 'EmsModel.Props.C07'
 DRIVER = 'C07'
+EXTRA_MODULES = ['EmsModel.Props.C07Src']   # theorems about the terms generated from the source text of conventions/ugrid.py (harness/trans_ugridsrc.py)
 REQUIRED = [
     'Ems.C07.blur_shape', 'Ems.C07.blur_spec', 'Ems.C07.blur_extensive', 'Ems.C07.blur_mono_size',
     'Ems.C07.blur_mono_input', 'Ems.C07.smear_shape', 'Ems.C07.smear_spec',
@@ -34,7 +35,17 @@ REQUIRED = [
     'Ems.C07.cmask_pipelines_translated', 'Ems.C07.maskArr_shape_spec', 'Ems.C07.maskArr_get_spec',
     'Ems.C07.cmask_left_pipeline_spec', 'Ems.C07.cmask_back_pipeline_spec', 'Ems.C07.cmask_node_pipeline_spec',
     'Ems.C07.blur_pipeline_translated', 'Ems.C07.blur_pipeline_spec',
+    # buffer_faces / mask_from_face_indexes / UGrid.make_clip_mask as the source has them (Gen/UgridSrc.lean, harness/trans_ugridsrc.py)
+    'Ems.C07Src.ugridsrc_translated', 'Ems.C07Src.buffer_faces_src', 'Ems.C07Src.buffer_faces_src_spec',
+    'Ems.C07Src.mask_from_face_indexes_src', 'Ems.C07Src.mask_from_face_indexes_src_renumber',
+    'Ems.C07Src.make_clip_mask_src_kept', 'Ems.C07Src.make_clip_mask_src', 'Ems.C07Src.make_clip_mask_src_order_irrelevant',
+    'Ems.C07Src.make_clip_mask_src_params',
 ]
+# --- strengthening round 6 (loose rows): rows of the node / edge table that no face uses, selections by extent (Props/C07Loose.lean)
+REQUIRED += ['Ems.C07.loose_node_never_kept', 'Ems.C07.loose_edge_never_kept', 'Ems.C07.whole_mesh_kept_faces',
+             'Ems.C07.whole_mesh_mask_spec', 'Ems.C07.whole_mesh_node_numbering']
+EXTRA_MODULES = list(globals().get('EXTRA_MODULES', [])) + ['EmsModel.Props.C07Loose']   # appended, other entries kept
+# --- end round 6
 RULE = ('primitives: boolean arrays (thorough: every array of every shape 1..4 x 1..4; quick: a seeded sample of '
         'them plus random arrays up to 7x9) through blur_mask for size 0..3 and smear_mask for all four pad_axes '
         'choices, c_mask_from_centres; dataset level: make_clip_mask of cf1d, cf2d, shoc_simple, shoc_standard, '
@@ -131,6 +142,18 @@ def mesh_str(nnodes: int, faces: list, edge_info) -> str:
         ne, fe = edge_info
         e = f'{ne}:' + '/'.join('.'.join(map(str, row)) for row in fe)
     return f'n={nnodes};f={f};e={e}'
+
+
+# --- B5 (ugridsrc): the mesh as the SOURCE sees it — masked tables of the width the generator wrote (ground truth: the recipe's
+# rows padded with masked entries up to `maxn`), for the driver ops that evaluate the terms generated from the source
+def src_mesh_str(case, edge_info) -> str:
+    width = max([int(case.built.extra.get('maxn', 0))] + [len(r) for r in case.faces])
+
+    def rows(rs):
+        return '/'.join('.'.join([str(v) for v in r] + ['_'] * (width - len(r))) for r in rs)
+    e = '-' if edge_info is None else f'{edge_info[0]}:{rows(edge_info[1])}'
+    return f'n={case.nnodes};f={rows(case.faces)};e={e}'
+# --- end B5
 
 
 # ----------------------------------------------------------------------------
@@ -391,6 +414,10 @@ class Case:
             self.nnodes = len(recipe['nodes'])
             if self.built.extra['has_edge']:
                 self._edges()
+                # round 6 (loose rows): where the FILE defines the edge numbering (a stored edge_node table) and the recipe
+                # is of the loose-row class, the model and the oracle get the generator's numbering, not the one read back
+                if recipe.get('loose') and self.edge_info is not None and X.truth_edges(self.built) is not None:
+                    self.edge_info = X.truth_edges(self.built)
         else:
             self.ny, self.nx = self.built.grids['face'][1]
 
@@ -581,6 +608,11 @@ def clip_case(ctx, case: Case, geom, gclass: str, buffer: int, items: list, fail
             f1_lines.append((f'ugridmask-current {mesh} {tbits} {nat_list(tree_hits)} {buffer}', out, d))
         else:
             items.append((line, out, d))
+            # --- B5 (ugridsrc): the same call through the program GENERATED FROM THE SOURCE of UGrid.make_clip_mask
+            sline = (f'ugridmask-src {src_mesh_str(case, case.edge_info if case.edge_problem is None else None)} '
+                     f'{tbits} {nat_list(shuffled)} {buffer}')
+            items.append((sline, out, {**desc, 'op': sline}))
+            # --- end B5
         if buffer > 0 and len(kept) > len(true_cells):
             nontrivial = True
         if masks_out is not None:
@@ -729,6 +761,10 @@ def mesh_function_cases(ctx, case: Case, items: list, fails: list) -> None:
         except Exception as e:
             out = f'ERR:{type(e).__name__}'
         items.append((line, out, d))
+        # --- B5 (ugridsrc): the term GENERATED FROM THE SOURCE of buffer_faces on the same masked table
+        sline = f'bufferfaces-src {src_mesh_str(case, case.edge_info)} {nat_list(F)}'
+        items.append((sline, out, {'recipe': case.recipe, 'faces_arg': F, 'op': sline}))
+        # --- end B5
         if skip_edges:
             continue
         Fs = sorted(F)
@@ -741,7 +777,137 @@ def mesh_function_cases(ctx, case: Case, items: list, fails: list) -> None:
         except Exception as e:
             out = f'ERR:{type(e).__name__}'
         items.append((line, out, d))
+        # --- B5 (ugridsrc): the program GENERATED FROM THE SOURCE of mask_from_face_indexes, here also on an UNSORTED list
+        sline = f'maskfrom-src {src_mesh_str(case, case.edge_info)} {nat_list(Fs)}'
+        items.append((sline, out, {'recipe': case.recipe, 'faces_arg': Fs, 'op': sline}))
+        if F != Fs:
+            sline = f'maskfrom-src {src_mesh_str(case, case.edge_info)} {nat_list(F)}'
+            du = {'recipe': case.recipe, 'faces_arg': F, 'op': sline}
+            try:
+                ds = ugrid.mask_from_face_indexes(np.array(F, dtype=topo.sensible_dtype), topo)
+                e = show_table(ds['new_edge_index'].values) if 'new_edge_index' in ds.data_vars else 'absent'
+                outu = f"face={show_table(ds['new_face_index'].values)};edge={e};node={show_table(ds['new_node_index'].values)}"
+            except Exception as e:
+                outu = f'ERR:{type(e).__name__}'
+            items.append((sline, outu, du))
+        # --- end B5
         ctx.count('ugrid:direct-function-calls')
+
+
+# ----------------------------------------------------------------------------
+# --- strengthening round 6 (loose rows): meshes whose node table / stored edge table have rows that no face uses
+# (harness/gen/c07_extra.py: add_loose_elements), clipped by selections of every extent - no face, one, some, all but one,
+# all faces - reached directly (a covering geometry, an explicit face list) or through the buffer rings
+
+def direct_mask_oracle(case: Case, F: list, ds, d: dict, fails: list) -> None:
+    """mask_from_face_indexes(F) for an ascending face list F: the faces of F, the nodes and edges of exactly those faces,
+    each numbered 0..k-1 in their original order; every other row masked.  Ground truth: the recipe's tables."""
+    nf = len(case.faces)
+    kept = set(F)
+    tables = [('face', 'new_face_index', nf, kept),
+              ('node', 'new_node_index', case.nnodes, {n for f in F for n in case.faces[f]})]
+    has_edge = bool(case.built.extra['has_edge'])
+    if ('new_edge_index' in ds.data_vars) != has_edge:
+        fails.append((nf, 'ugrid-edge-table-presence', d, f'has edge dimension: {has_edge}, new_edge_index present: {"new_edge_index" in ds.data_vars}'))
+    elif has_edge and case.edge_info is not None:
+        tables.append(('edge', 'new_edge_index', case.edge_info[0], {e for f in F for e in case.edge_info[1][f]}))
+    for kind, name, size, want in tables:
+        got = table_list(ds[name].values)
+        got_kept = {e for e, v in enumerate(got) if v is not None}
+        if len(got) != size or got_kept != want:
+            fails.append((nf, f'mask-from-faces-kept-{kind}s', d,
+                          f'mask_from_face_indexes({F}): kept {kind}s {sorted(got_kept)} != the {kind}s of the listed faces {sorted(want)} '
+                          f'({name} = {show_table(ds[name].values)}, {size} rows)'))
+        elif got != rank_table(size, want):
+            fails.append((nf, f'mask-from-faces-renumber-{kind}s', d,
+                          f'mask_from_face_indexes({F}): {name} = {show_table(ds[name].values)} does not number the kept {kind}s '
+                          f'{sorted(want)} as 0..{len(want) - 1} in their original order'))
+
+
+def mask_from_case(ctx, case: Case, ext: str, F: list, items: list, fails: list) -> None:
+    """one direct call of mask_from_face_indexes with a face list of extent class `ext`: model line + direct oracle"""
+    from emsarray.conventions import ugrid
+    topo = case.c.topology
+    skip_edges = case.built.extra['has_edge'] and case.edge_info is None
+    line = f'maskfrom {mesh_str(case.nnodes, case.faces, case.edge_info)} {nat_list(F)}'
+    d = {'recipe': case.recipe, 'faces_arg': F, 'extent': ext, 'op': line}
+    try:
+        ds = ugrid.mask_from_face_indexes(np.array(F, dtype=topo.sensible_dtype), topo)
+    except Exception as e:
+        if not skip_edges:
+            items.append((line, f'ERR:{type(e).__name__}', d))
+        fails.append((len(case.faces), 'mask-from-faces-raises', d, f'mask_from_face_indexes({F}) raised {type(e).__name__}: {e}'))
+        return
+    if not skip_edges:
+        e = show_table(ds['new_edge_index'].values) if 'new_edge_index' in ds.data_vars else 'absent'
+        items.append((line, f"face={show_table(ds['new_face_index'].values)};edge={e};node={show_table(ds['new_node_index'].values)}", d))
+    direct_mask_oracle(case, F, ds, d, fails)
+    ctx.count('loose:direct:' + ext)
+
+
+def run_loose_meshes(ctx, items: list, fails: list, f1_lines: list) -> None:
+    import random
+    rng = random.Random(f'{ctx.seed}:{int(ctx.searching)}:c07-extra6')     # a stream of its own
+    for k in range(ctx.budget(24, 150)):
+        variant = 'ugrid' if k % 3 == 0 else 'ugrid+edge'
+        recipe = recipe_for(rng, variant, ctx.tier)
+        if k % 3 == 1 and 'edge_node' not in recipe['enc']['tables']:
+            # a third of the meshes store their own edge table for certain (only then can an edge belong to no face)
+            recipe = dict(recipe, enc=dict(recipe['enc'], tables=['edge_node'] + list(recipe['enc']['tables'])))
+        recipe = X.add_loose_elements(rng, recipe)
+        try:
+            case = Case(recipe)
+        except Exception as e:  # generator / binding trouble is not a verdict
+            ctx.count(f'build-failed:loose:{type(e).__name__}')
+            continue
+        nf = len(case.faces)
+        loose = recipe['loose']
+        ctx.count(f'loose:nodes={len(loose["nodes"])},edges={len(loose["edges"])}')
+        cells = [n for n, p in enumerate(case.polys) if p is not None]
+        geoms = [('cover-all', CG.make(rng, case.built, 'cover-all'), [0, 1])]
+        if cells:
+            # from inside one face outwards, ring by ring, until the rings have reached whatever they can reach
+            geoms.append(('inside-cell', X.inside_cell(rng, case.built, rng.choice(cells)), [0, 1, 2, 3, nf + 1]))
+        other = rng.choice(['box', 'polygon', 'touch-corner', 'hug-border', 'line'])
+        try:
+            geoms.append((other, CG.make(rng, case.built, other), [0, 2]))
+        except Exception as e:
+            ctx.count(f'geom-failed:{other}:{type(e).__name__}')
+        for gclass, geom, buffers in geoms:
+            masks: dict = {}
+            for b in buffers:
+                clip_case(ctx, case, geom, 'loose:' + gclass, b, items, fails, f1_lines, masks)
+            monotone_buffers(case, recipe, geom, buffers, masks, fails)
+            if masks and max(len(m) for m in masks.values()) == nf:
+                ctx.count('loose:selection-reaches-every-face')
+                ctx.nontrivial(('loose', str(case.faces), str(loose), gclass))
+            # model side: the rows no face uses - counted by the model from the mesh it was given, by the generator from how
+            # it built the tables - are all masked in the demanded mask (decidable form of C07.loose_*_never_kept)
+            try:
+                truth = case.truth(geom)
+            except shapely.errors.GEOSException:
+                continue
+            hits = [n for n, t in enumerate(truth) if t]
+            tb = ''.join('1' if t else '0' for t in truth) or '-'
+            info = case.edge_info if case.edge_problem is None else None
+            n_loose_edges = 0 if info is None else len(loose['edges'])
+            line = f'propcheck-loose {mesh_str(case.nnodes, case.faces, info)} {tb} {nat_list(hits)} {buffers[-1]}'
+            items.append((line, f'OK loose-nodes={len(loose["nodes"])} loose-edges={n_loose_edges}',
+                          {'recipe': recipe, 'geom': CG.to_hex(geom), 'wkt': geom.wkt[:300], 'buffer': buffers[-1], 'op': line}))
+        for ext, F in X.selection_extents(rng, nf):
+            ctx.guarded(lambda ext=ext, F=F: mask_from_case(ctx, case, ext, F, items, fails),
+                        {'recipe': recipe, 'faces_arg': F, 'extent': ext,
+                         'op': f'maskfrom {mesh_str(case.nnodes, case.faces, case.edge_info)} {nat_list(F)}'})
+
+
+RULE += (' Loose rows (round 6): meshes of every encoding with 1..3 nodes that are a corner of no face (at the front / in the middle / at the '
+         'end of the node table) and, where the file stores its own edge_node table, 0..2 edges that are a side of no face (between loose '
+         'and / or mesh nodes, placed likewise) x selections of every extent - a covering geometry, the inside of one face with the buffers '
+         '0, 1, 2, 3 and faces + 1 (rings until nothing more is reached), one other geometry class, and mask_from_face_indexes called with '
+         'no face, one, some, all but one and all faces: the nodes / edges kept must be exactly those of the kept faces, numbered in order '
+         '(ground truth: the recipe; the stored edge table is the edge numbering); `propcheck-loose` has the model count the loose rows of '
+         'the mesh it is given and confirm they are masked.')
+# --- end round 6
 
 
 # ----------------------------------------------------------------------------
@@ -825,6 +991,7 @@ def run(ctx) -> None:
     run_primitives(ctx, items, fails)
     run_datasets(ctx, items, fails, f1_lines)
     run_large_rings(ctx, items, fails, f1_lines)
+    run_loose_meshes(ctx, items, fails, f1_lines)      # round 6; last, so that the earlier streams are what they were
     # report oracle failures smallest input first, so that the replay written is a minimal one
     def priority(sig: str) -> int:
         if sig.startswith(('blur-', 'smear-', 'buffer-faces-')):
@@ -915,6 +1082,9 @@ def run_one(ctx, inp: dict) -> dict:
         out['impl'] = impl
         if ctx.driver:
             out['model'] = ctx.model([op])[0]
+        if 'extent' in inp and op.startswith('maskfrom ') and not impl.startswith('ERR'):    # round 6: the direct oracle of these calls
+            direct_mask_oracle(case, F, ds, inp, fails)
+            out['oracle'] = '; '.join(f'{s}: {m}' for _, s, _, m in fails) or 'property holds on this input'
         return out
     geom = CG.from_hex(inp['geom'])
     items, fails, f1 = [], [], []
